@@ -216,7 +216,9 @@ func c19API(c *Ctx) {
 		cfgRule := mk()
 		cfgRule.Selector = "verif.v1.Svc.M"
 		sc := &serviceconfig.Service{Http: &annotations.Http{Rules: []*annotations.HttpRule{cfgRule}}}
+		fixtureConfigFirst = ri%2 == 1
 		conf, err2 := NewFixture([]*MethodSpec{{Name: "M", In: "Req", Out: "Reply", Unary: echo}, {Name: "Other", In: "Req", Out: "Reply", Unary: echo}}, sc)
+		fixtureConfigFirst = false
 		if err1 != nil || err2 != nil || annot.RegErr != nil || conf.RegErr != nil || annot.RegPanic != nil || conf.RegPanic != nil {
 			c.SpecFail("api-config", fmt.Sprint("rule ", ri), fmt.Sprint(err1, err2, annot.RegErr, conf.RegErr, annot.RegPanic, conf.RegPanic), "both register", "C19/api/registration-differs", "annotation and config registration differ")
 			continue
@@ -252,28 +254,32 @@ func c19API(c *Ctx) {
 			covers bool
 		}{{"verif.v1.Svc.M", true}, {"verif.v1.Svc.*", true}, {"verif.v1.*", true}, {"verif.*", true}, {"*", true},
 			{"verif.v1.Svc.M.*", false}, {"verif.v1.Sv.*", false}, {"verif.v1.SvcX.*", false}, {"verif.v1.Svc.MX", false}, {"verif.v1.Svc", false}, {"other.*", false}, {"veri.*", false}} {
-			rule := mk()
-			rule.Selector = sel.s
-			conf, err2 := NewFixture([]*MethodSpec{{Name: "M", In: "Req", Out: "Reply", Unary: echo}}, &serviceconfig.Service{Http: &annotations.Http{Rules: []*annotations.HttpRule{rule}}})
-			in := fmt.Sprintf("selector %q alone in the config, rule GET /c19/sel/{name} for verif.v1.Svc.M", sel.s)
-			c.Eval("api-selector", in, true)
-			if err0 != nil || err1 != nil || err2 != nil || conf.RegErr != nil || conf.RegPanic != nil {
-				c.SpecFail("api-selector", in, fmt.Sprint(err0, err1, err2, conf.RegErr, conf.RegPanic), "registered", "C19/api/selector-registration", "a configuration with this selector cannot be registered")
-				continue
-			}
-			ref := bare
-			if sel.covers {
-				ref = annot
-			}
-			for _, path := range []string{"/c19/sel/x", "/c19/sel/x/y", "/c19/sel"} {
-				rec1, _ := ref.Serve(httptest.NewRequest("GET", path, nil))
-				rec2, pn := conf.Serve(httptest.NewRequest("GET", path, nil))
-				if pn != nil || rec1.Code != rec2.Code || rec1.Body.String() != rec2.Body.String() {
-					key := "C19/api/selector-overbinds"
-					if sel.covers {
-						key = "C19/api/selector-not-bound"
+			for _, cfgFirst := range []bool{false, true} {
+				rule := mk()
+				rule.Selector = sel.s
+				fixtureConfigFirst = cfgFirst
+				conf, err2 := NewFixture([]*MethodSpec{{Name: "M", In: "Req", Out: "Reply", Unary: echo}}, &serviceconfig.Service{Http: &annotations.Http{Rules: []*annotations.HttpRule{rule}}})
+				fixtureConfigFirst = false
+				in := fmt.Sprintf("selector %q alone in the config (config option first: %v), rule GET /c19/sel/{name} for verif.v1.Svc.M", sel.s, cfgFirst)
+				c.Eval("api-selector", in, true)
+				if err0 != nil || err1 != nil || err2 != nil || conf.RegErr != nil || conf.RegPanic != nil {
+					c.SpecFail("api-selector", in, fmt.Sprint(err0, err1, err2, conf.RegErr, conf.RegPanic), "registered", "C19/api/selector-registration", "a configuration with this selector cannot be registered")
+					continue
+				}
+				ref := bare
+				if sel.covers {
+					ref = annot
+				}
+				for _, path := range []string{"/c19/sel/x", "/c19/sel/x/y", "/c19/sel"} {
+					rec1, _ := ref.Serve(httptest.NewRequest("GET", path, nil))
+					rec2, pn := conf.Serve(httptest.NewRequest("GET", path, nil))
+					if pn != nil || rec1.Code != rec2.Code || rec1.Body.String() != rec2.Body.String() {
+						key := "C19/api/selector-overbinds"
+						if sel.covers {
+							key = "C19/api/selector-not-bound"
+						}
+						c.SpecFail("api-selector", in+": GET "+path, fmt.Sprintf("%d %q", rec2.Code, truncS(rec2.Body.String(), 80)), fmt.Sprintf("%d %q", rec1.Code, truncS(rec1.Body.String(), 80)), key, "a service-config rule is not bound to exactly the methods its selector covers")
 					}
-					c.SpecFail("api-selector", in+": GET "+path, fmt.Sprintf("%d %q", rec2.Code, truncS(rec2.Body.String(), 80)), fmt.Sprintf("%d %q", rec1.Code, truncS(rec1.Body.String(), 80)), key, "a service-config rule is not bound to exactly the methods its selector covers")
 				}
 			}
 		}
